@@ -223,6 +223,35 @@ func run(r *vk.Runner) {
 			sub.Set(sub.Descriptor().Fields().ByName("value"), protoreflect.ValueOfString("1\"2"))
 		}},
 	}
+	// Any values without a payload, or with a payload that is not what it claims to be
+	setAny := func(fields map[string]any) func(m protoreflect.Message, fd protoreflect.FieldDescriptor) {
+		return func(m protoreflect.Message, fd protoreflect.FieldDescriptor) {
+			sub := m.Mutable(fd).Message()
+			for k, v := range fields {
+				f := sub.Descriptor().Fields().ByName(protoreflect.Name(k))
+				switch x := v.(type) {
+				case string:
+					sub.Set(f, protoreflect.ValueOfString(x))
+				case []byte:
+					sub.Set(f, protoreflect.ValueOfBytes(x))
+				}
+			}
+		}
+	}
+	bads = append(bads,
+		bad{"j5any-empty", gpb.KJ5Any, setAny(nil)},
+		bad{"j5any-type-only", gpb.KJ5Any, setAny(map[string]any{"type_name": "vt.v1.Sub"})},
+		bad{"j5any-json-truncated", gpb.KJ5Any, setAny(map[string]any{"type_name": "vt.v1.Sub", "j5_json": []byte(`{"sVal":`)})},
+		bad{"j5any-json-two-values", gpb.KJ5Any, setAny(map[string]any{"type_name": "vt.v1.Sub", "j5_json": []byte(`{} {}`)})},
+		bad{"j5any-json-not-json", gpb.KJ5Any, setAny(map[string]any{"type_name": "vt.v1.Sub", "j5_json": []byte("\"},\"x\":{")})},
+		bad{"j5any-proto-garbage", gpb.KJ5Any, setAny(map[string]any{"type_name": "vt.v1.Sub", "proto": []byte{0xff, 0xff}})},
+		bad{"j5any-proto-unknown-type", gpb.KJ5Any, setAny(map[string]any{"type_name": "nope.v1.Nope", "proto": []byte{0x0a, 0x01, 'x'}})},
+		bad{"pbany-empty", gpb.KPbAny, setAny(nil)},
+		bad{"pbany-type-only", gpb.KPbAny, setAny(map[string]any{"type_url": "type.googleapis.com/vt.v1.Sub"})},
+		bad{"pbany-no-type", gpb.KPbAny, setAny(map[string]any{"value": []byte{0x0a, 0x01, 'x'}})},
+		bad{"pbany-garbage", gpb.KPbAny, setAny(map[string]any{"type_url": "type.googleapis.com/vt.v1.Sub", "value": []byte{0xff, 0xff}})},
+		bad{"pbany-odd-url", gpb.KPbAny, setAny(map[string]any{"type_url": "vt.v1.Sub", "value": []byte{0x0a, 0x01, 'x'}})},
+	)
 	for _, b := range bads {
 		for _, l := range []gpb.Label{gpb.Single, gpb.Repeated, gpb.Map} {
 			b, l := b, l
@@ -259,7 +288,7 @@ func run(r *vk.Runner) {
 					mp.Set(protoreflect.ValueOfString("k").MapKey(), el)
 				}
 				b.set(inner, inner.Descriptor().Fields().ByName("f_val"))
-				codec := j5codec.NewCodec()
+				codec := j5codec.NewCodec(j5codec.WithResolver(gpb.Resolver{S: s}))
 				out, err := codec.ProtoToJSON(msg)
 				t.Step()
 				if err != nil {
